@@ -76,3 +76,55 @@ fn ripemd160_trace_len56() { case::<56>(55, false) }
 #[kani::stub(process_msg_block, rec)]
 #[kani::unwind(200)]
 fn ripemd160_trace_len64() { case::<64>(63, false) }
+
+// ---- the compression function itself against the paper's definition (appendix A) written as a loop over the tables r, r',
+// s, s' and the five functions / constants per group of sixteen steps: a full-domain equivalence check (symbolic block and
+// chaining value).  Both sides are the same sequence of additions, rotations and boolean functions, which is what lets CBMC
+// close it; it is also the witness generator for the Verus unit ripemd160 (where a wrong table entry shows up as a timeout).
+const SPEC_RL: [usize; 80] = [0, 1, 2, 3, 4, 5, 6, 7, 8, 9, 10, 11, 12, 13, 14, 15, 7, 4, 13, 1, 10, 6, 15, 3, 12, 0, 9, 5, 2, 14, 11, 8, 3, 10, 14, 4, 9, 15, 8, 1, 2, 7, 0, 6, 13, 11, 5, 12, 1, 9, 11, 10, 0, 8, 12, 4, 13, 3, 7, 15, 14, 5, 6, 2, 4, 0, 5, 9, 7, 12, 2, 10, 14, 1, 3, 8, 11, 6, 15, 13];
+const SPEC_RR: [usize; 80] = [5, 14, 7, 0, 9, 2, 11, 4, 13, 6, 15, 8, 1, 10, 3, 12, 6, 11, 3, 7, 0, 13, 5, 10, 14, 15, 8, 12, 4, 9, 1, 2, 15, 5, 1, 3, 7, 14, 6, 9, 11, 8, 12, 2, 10, 0, 4, 13, 8, 6, 4, 1, 3, 11, 15, 0, 5, 12, 2, 13, 9, 7, 10, 14, 12, 15, 10, 4, 1, 5, 8, 7, 6, 2, 13, 14, 0, 3, 9, 11];
+const SPEC_SL: [u32; 80] = [11, 14, 15, 12, 5, 8, 7, 9, 11, 13, 14, 15, 6, 7, 9, 8, 7, 6, 8, 13, 11, 9, 7, 15, 7, 12, 15, 9, 11, 7, 13, 12, 11, 13, 6, 7, 14, 9, 13, 15, 14, 8, 13, 6, 5, 12, 7, 5, 11, 12, 14, 15, 14, 15, 9, 8, 9, 14, 5, 6, 8, 6, 5, 12, 9, 15, 5, 11, 6, 8, 13, 12, 5, 12, 13, 14, 11, 8, 5, 6];
+const SPEC_SR: [u32; 80] = [8, 9, 9, 11, 13, 15, 15, 5, 7, 7, 8, 11, 14, 14, 12, 6, 9, 13, 15, 7, 12, 8, 9, 11, 7, 7, 12, 7, 6, 15, 13, 11, 9, 7, 15, 11, 8, 6, 6, 14, 12, 13, 5, 14, 13, 13, 7, 5, 15, 5, 8, 11, 14, 14, 6, 14, 6, 9, 12, 9, 12, 5, 15, 8, 8, 5, 12, 9, 12, 5, 14, 6, 8, 13, 6, 5, 15, 13, 11, 11];
+fn spec_f(g: usize, x: u32, y: u32, z: u32) -> u32 {
+    match g { 0 => x ^ y ^ z, 1 => (x & y) | (!x & z), 2 => (x | !y) ^ z, 3 => (x & z) | (y & !z), _ => x ^ (y | !z) }
+}
+const SPEC_KL: [u32; 5] = [0x00000000, 0x5a827999, 0x6ed9eba1, 0x8f1bbcdc, 0xa953fd4e];
+const SPEC_KR: [u32; 5] = [0x50a28be6, 0x5c4dd124, 0x6d703ef3, 0x7a6d76e9, 0x00000000];
+fn spec_compress(h: &mut [u32; 5], x: &[u32; 16]) {
+    let (mut a, mut b, mut c, mut d, mut e) = (h[0], h[1], h[2], h[3], h[4]);
+    let (mut a2, mut b2, mut c2, mut d2, mut e2) = (h[0], h[1], h[2], h[3], h[4]);
+    let mut j = 0;
+    while j < 80 {
+        let g = j / 16;
+        let t = a.wrapping_add(spec_f(g, b, c, d)).wrapping_add(x[SPEC_RL[j]]).wrapping_add(SPEC_KL[g]).rotate_left(SPEC_SL[j]).wrapping_add(e);
+        a = e; e = d; d = c.rotate_left(10); c = b; b = t;
+        let t2 = a2.wrapping_add(spec_f(4 - g, b2, c2, d2)).wrapping_add(x[SPEC_RR[j]]).wrapping_add(SPEC_KR[g]).rotate_left(SPEC_SR[j]).wrapping_add(e2);
+        a2 = e2; e2 = d2; d2 = c2.rotate_left(10); c2 = b2; b2 = t2;
+        j += 1;
+    }
+    let t = h[1].wrapping_add(c).wrapping_add(d2);
+    h[1] = h[2].wrapping_add(d).wrapping_add(e2);
+    h[2] = h[3].wrapping_add(e).wrapping_add(a2);
+    h[3] = h[4].wrapping_add(a).wrapping_add(b2);
+    h[4] = h[0].wrapping_add(b).wrapping_add(c2);
+    h[0] = t;
+}
+// @attempt (not run: goto-instrument is OOM-killed at 24 GB on the unrolled body, as for the BLAKE2 compression functions) props=C01 kind=full tier=thorough timeout=1200
+#[kani::proof]
+#[kani::unwind(82)]
+fn ripemd160_compress_matches_paper() {
+    let data: [u8; 64] = kani::any();
+    let h0: [u32; 5] = kani::any();
+    let mut h = h0;
+    process_msg_block(&data, &mut h);
+    let mut x = [0u32; 16];
+    let mut i = 0;
+    while i < 16 {
+        x[i] = u32::from_le_bytes([data[4 * i], data[4 * i + 1], data[4 * i + 2], data[4 * i + 3]]);
+        i += 1;
+    }
+    let mut e = h0;
+    spec_compress(&mut e, &x);
+    assert!(h[0] == e[0] && h[1] == e[1] && h[2] == e[2] && h[3] == e[3] && h[4] == e[4], "compress == paper");
+    kani::cover!(true);
+}
